@@ -15,8 +15,9 @@ PROPS = {
                    'part); (iii) every Challenger method implements the duplex sponge state machine and absorbing a ++ b in one or two calls reaches the same state.',
         level_note='Trusted: Verus+Z3; the permutation is uninterpreted in (ii)/(iii); gl_core contracts (C14) for from_noncanonical_u96 and +. NOT proved: the '
                    'identity between the fast partial rounds (FAST_PARTIAL_* matrices) and the textbook rounds (a computer-algebra identity on 12x12 matrices, '
-                   'assumption A-C13-1), round constants, s-box, full/partial round drivers (poseidon.rs) -- listed as remainder. Keccak delegates to an external crate.',
-        remainder=['poseidon.rs: constant_layer, sbox_layer, mds_partial_layer_init, partial_first_constant_layer, partial_rounds, full_rounds, poseidon drivers (bounded harness only: poseidon == poseidon_naive; linear layers vs a u128 oracle on magnitude classes and carry-boundary states)',
+                   'assumption A-C13-1), round constants, s-box, full/partial round drivers (poseidon.rs) -- listed as remainder. Keccak delegates to an external crate; the bounded harness checks that the Keccak permutation, hash and challenger see field elements, not '
+                   'their u64 representations (x vs x + p).',
+        remainder=['poseidon.rs: constant_layer, sbox_layer, mds_partial_layer_init, partial_first_constant_layer, partial_rounds, full_rounds, poseidon drivers (bounded harness only: poseidon == poseidon_naive; linear layers vs a u128 oracle on magnitude classes and states steered to the carry boundaries of the 160-bit accumulator, incl. sums K*2^128 + delta with delta < 100)',
                    'A-C13-1: FAST_PARTIAL_* constants are the sparse factorisation of the MDS matrix', 'Keccak (external crate)', 'AVX2/NEON Poseidon (not compiled here)'],
     ),
     'C14': dict(
@@ -50,15 +51,15 @@ PROPS = {
                    'accumulation filter*c + acc) are proved against ONE uninterpreted filter function (units gate_constraints, filtered_circuit).',
         level_note='Trusted: Verus+Z3; abstract ring for scalar/extension/packed fields (T6); CircuitBuilder arithmetic contracts (T10d). Other gates '
                    '(BaseSum, Exponentiation, RandomAccess, Reducing*, MulExtension, ArithmeticExtension, Poseidon*, CosetInterpolation, Lookup*) and '
-                   'compute_filter / compute_filter_circuit (iterator products): bounded harness only (c07_gates: 18 gate instances x {standard, 37-routed-wire} configuration: extension vs '
+                   'compute_filter / compute_filter_circuit (iterator products): bounded harness only (c07_gates: 23 gate instances incl. odd bases 3/5/7 x {standard, 37-routed-wire} configuration: extension vs '
                    'base-batch vs in-circuit evaluators incl. filtered with 1 and 2 selectors, declared constraint count, and for every wire a generator writes: the '
-                   'generated row satisfies the gate and the wire cannot be changed by +1, -1, 12345 without violating a constraint).',
+                   'generated row satisfies the gate and the wire cannot be changed by +1, -1, 12345 without violating a constraint; c07_gate_ids_and_circuit_evaluation: gate ids distinguish every parameterisation, and whole circuits with lookup tables evaluate identically natively and in-circuit).',
         remainder=['all gates other than ArithmeticGate, ConstantGate and ExponentiationGate (bounded harness only)', 'generators run_once (closures over the witness)', 'compute_filter / compute_filter_circuit (assumed to denote the same function)'],
     ),
     'C09': dict(
         title='STARK proofs are accepted exactly for traces that satisfy the constraints',
         design_ref='DESIGN.md section 4 / C09',
-        bounded=[('starky', ['c09_'])],
+        bounded=[('starky', ['c09_', 'c04_'])],
         vspecs=['contracts/C09/constraint_consumer.vspec', 'contracts/C09/stark_degree.vspec', 'contracts/C09/lagrange_ends.vspec'],
         level_text='Unbounded deductive proof (Verus/Z3) that ConstraintConsumer accumulates acc_i*alpha_i + c*filter with filter = 1, z_last, L_first, L_last for '
                    'constraint / constraint_transition / constraint_first_row / constraint_last_row respectively (a swapped or missing filter fails the '
@@ -68,8 +69,11 @@ PROPS = {
                    '(iterator pipelines) are covered by a bounded stand-in only.',
         level_note='Trusted: Verus+Z3; abstract ring for packed fields; lane-wise scalar multiplication uninterpreted. verify_stark_proof_with_challenges, '
                    'compute_quotient_polys, eval_vanishing_poly, get_challenges: bounded harness only (flat_map/chunks/Option plumbing outside the Verus subset): '
-                   'a Fibonacci STARK and a family of counter STARKs (2..40 columns, declared degree 1..3, 8..128 rows): honest traces accepted; corrupted first / '
-                   'interior / last rows, false public inputs (also pairs of errors that would cancel under a shared weight) and altered proof elements never accepted.',
+                   'a Fibonacci STARK and a family of counter STARKs (2..40 columns, 8..128 rows; declared degree 1..3 at blowup 2, 2..5 at blowup 4, 3..9 at blowup 8, i.e. quotients '
+                   'split into 1..8 chunks incl. the non-powers of two): honest traces proved and accepted; corrupted first / '
+                   'interior / last rows, false public inputs (also pairs of errors that would cancel under a shared weight) and altered proof elements never accepted; '
+                   'a harness-side cheating prover that ignores the constraints (quotients fitted to a guessed zeta with the commitment withheld / not absorbed / absorbed '
+                   'after the guess; all-zero quotients with their openings withheld) is never accepted (found F9); the STARK transcript battery (c04_stark_transcript) is part of this check.',
         remainder=['starky verifier / prover / vanishing polynomial (bounded harness only)', 'batch_multiplicative_inverse (assumed contract)', 'STARK soundness argument'],
     ),
     'C15': dict(
@@ -83,7 +87,7 @@ PROPS = {
                    'interpolation, bit reversal and transposes are covered by a bounded stand-in only (roots-of-unity developments are days of proof '
                    'engineering; see DESIGN.md).',
         level_note='Trusted: Verus+Z3; usize::trailing_zeros std semantics. Everything except log2_strict is BOUNDED evidence (sizes 1..256, random and boundary '
-                   'operands, naive DFT / schoolbook oracles; coset vanishing polynomial, first Lagrange polynomial, disjoint coset shifts, value-form LDE helpers), never '
+                   'operands, naive DFT / schoolbook oracles; fft and ifft with every zero-tail factor and with root tables; coset vanishing polynomial, first Lagrange polynomial, disjoint coset shifts, value-form LDE helpers), never '
                    'counted as proof; it found F6 (div_rem) and F7 (inv_mod_xn), both fixed.',
         remainder=['fft / ifft / coset variants / lde', 'polynomial mul / div_rem / divide_by_linear / interpolate', 'reverse_index_bits*, transpose_* (unsafe code)'],
     ),
@@ -219,10 +223,11 @@ PROPS = {
                    'eval_filtered (T12); common data well-formed (common_gates_ok). Bounded harness: 3 circuit families (assertions / Poseidon + '
                    'exponentiation / lookups + random access), every row x 13 columns, single-cell and copy-class corruptions of the witness handed to '
                    'prove_with_partition_witness, with an independent native oracle deciding whether the assignment violates the circuit. Degenerate '
-                   'strategies that need prover hooks (all-zero Z, altered quotient) are NOT exercised.',
+                   'prover strategies are exercised through the guarded hooks (cargo feature verif_hooks, MANIFEST.hooks): all-zero permutation polynomials, a quotient '
+                   'perturbed for one challenge, lenient quotient truncation, each on copy-constraint-only violations; also a 37-routed-wire configuration and conflicting assignments.',
         remainder=['PLONK soundness (Schwartz-Zippel) over the checked identities', 'permutation argument: wire_partition / get_sigma_map / get_sigma_polys (HashMap code; bounded harness only)',
                    'eval_vanishing_poly: L_0 term, check_partial_products (tuple_windows / zip_eq; bounded harness only)', 'PartitionWitness::set_target_returning_rep (mutable reference into a Vec element; bounded harness only)',
-                   'adversarial strategies needing prover hooks (all-zero Z, per-challenge quotient alteration): not exercised'],
+                   'adversarial prover strategies beyond the three hooked ones (all-zero Z, per-challenge quotient alteration, lenient truncation): not exercised'],
     ),
     'C08': dict(
         title='Table lookups are provable exactly for pairs contained in the table',
@@ -239,9 +244,10 @@ PROPS = {
                    'PolynomialValues::new contract. check_lookup_constraints*, get_lut_poly, compute_lookup_polys, set_lookup_wires, '
                    'add_all_lookups, LookupTableGenerator: closure/HashMap code, bounded harness only (11 table/lookup plans incl. 1..3 tables, sizes 1..53, '
                    'exact multiples of the slot counts, heavy repetition, unused entries; every first/middle/last looked-up pair corrupted on both '
-                   'sides incl. pairs of another table). Multiplicity corruption needs prover hooks and is not exercised.',
+                   'sides incl. pairs of another table; unordered tables; adversaries that rewrite a table row or claim multiplicity in an unused slot; lookup outputs are not public inputs, so '
+                   'nothing but the lookup argument catches them).',
         remainder=['logUp soundness argument', 'check_lookup_constraints* / get_lut_poly (bounded harness only)', 'set_lookup_wires / compute_lookup_polys (bounded harness only)',
-                   'add_all_lookups establishes rows_ok (assumed)', 'corrupted multiplicities (need prover hooks; not exercised)'],
+                   'add_all_lookups establishes rows_ok (assumed)', 'multiplicity corruptions other than the unused-slot adversary: not exercised'],
     ),
     'C20': dict(
         title='Conditional and cyclic recursion enforce exactly the selected verification',
@@ -256,8 +262,9 @@ PROPS = {
                    'connection of verifier data, dummy circuits) are covered by a bounded stand-in only.',
         level_note='Trusted: Verus+Z3; derived PartialEq on MerkleCap/HashOut is element-wise (T11); core::array::from_fn unrolled for N = 4 (R11e); slice range '
                    'indexing and HashOut::from_partial contracts (T4). conditionally_verify_proof, select_*, conditionally_verify_cyclic_proof, '
-                   'dummy_circuit/dummy_proof: CircuitBuilder code, bounded harness only (2 inner circuit shapes incl. lookups, both condition values, '
-                   '8-11 validity scenarios; thorough tier: a 3-step cyclic chain and 4 single-element alterations of the embedded verifier data).',
+                   'dummy_circuit/dummy_proof/cyclic_base_proof: CircuitBuilder code, bounded harness only (2 inner circuit shapes incl. lookups, condition as a witness bit and as a build-time '
+                   'constant, both values, 8-11 validity scenarios with the native verifier as oracle; cyclic base proofs of 4 shapes verified against their dummy circuit; thorough tier: a 3-step '
+                   'cyclic chain, 4 single-element alterations of the embedded verifier data, and a two-slot (tree) cyclic circuit with foreign verifier data in either slot).',
         remainder=['select_proof_with_pis / select_verifier_data / conditionally_verify_proof (bounded harness only)',
                    'conditionally_verify_cyclic_proof, add_verifier_data_public_inputs (bounded harness only, thorough tier)', 'dummy_circuit / dummy_proof (bounded harness only)'],
     ),
